@@ -201,7 +201,7 @@ func (w *worker) runOne(in *Input) Result {
 	case d = <-done:
 		finished = true
 	case fn := <-w.tr.parked:
-		res.Outcome, res.Spin, res.Frame = "suspect", "steps", fn
+		res.Outcome, res.Spin, res.Frame, res.Exits = "suspect", "steps", fn, true
 	case <-time.After(2 * unit):
 	}
 	if !finished && res.Outcome == "" {
@@ -216,7 +216,7 @@ func (w *worker) runOne(in *Input) Result {
 				finished = true
 				break loop
 			case fn := <-w.tr.parked:
-				res.Outcome, res.Spin, res.Frame = "suspect", "steps", fn
+				res.Outcome, res.Spin, res.Frame, res.Exits = "suspect", "steps", fn, true
 				break loop
 			case <-time.After(unit):
 			}
